@@ -647,6 +647,22 @@ func c17History(r *ev.Run, m *dyn.Model, p *prng.R, batch, hi int) {
 			}
 		}
 	}()
+	// bystanders: connections monitoring the same tables with their own column selections and
+	// select flags, never judged; what the server prepares for them must not leak into what
+	// the judged monitors receive
+	if hi%3 != 0 {
+		for i := 0; i < 1+p.Intn(2); i++ {
+			by, err := peer.Dial(srv.Path)
+			if err != nil {
+				break
+			}
+			defer by.Close()
+			for k := 0; k < 1+p.Intn(2); k++ {
+				_, _ = genMonReq(p, s, 700+10*i+k, true, false).register(by, s.Name)
+			}
+		}
+		r.Count("histories_with_bystander_monitors", 1)
+	}
 	// monitoring peers that go away: before the load starts or in the middle of it. The
 	// monitors that stay must not miss a transaction because of them.
 	if hi%2 == 1 {
